@@ -14,6 +14,9 @@ type SetCase struct {
 	Ctx  Ctx    `json:"ctx"`
 	Set  TSet   `json:"set"`
 	Main string `json:"main"`
+	// Ctx2, when present, is a second context rendered afterwards on the same engine (a
+	// dynamic parent name may select another layout in it)
+	Ctx2 *Ctx `json:"ctx2,omitempty"`
 }
 
 func checkSetCase(c SetCase) error {
@@ -21,7 +24,27 @@ func checkSetCase(c SetCase) error {
 	if main == "" {
 		main = "main"
 	}
-	return checkProgSet(c.Set, main, c.Ctx, SPrint{})
+	if c.Ctx2 == nil {
+		return checkProgSet(c.Set, main, c.Ctx, SPrint{})
+	}
+	// one engine, two renders with different contexts, then the first context again
+	srcs := c.Set.Sources(SPrint{})
+	e := newEngine(srcs)
+	NewSpies().Install(e)
+	for i, ctx := range []Ctx{c.Ctx, *c.Ctx2, c.Ctx} {
+		want := runModel(c.Set, main, ctx, 0)
+		if want.domain {
+			return nil
+		}
+		r := render(e, main, zooCtx(ctx, 0))
+		if r.Panic != "" {
+			return fmt.Errorf("render %d panicked: %s; templates:%s", i+1, r.Panic, showSources(srcs))
+		}
+		if want.failed != (r.Err != "") || (!want.failed && r.Out != want.out) {
+			return fmt.Errorf("render %d on the same engine (context %s): engine %v, model %s (failed=%v); templates:%s", i+1, showModel(ctx.Model()), r, q(want.out), want.failed, showSources(srcs))
+		}
+	}
+	return nil
 }
 
 // ---- generator ------------------------------------------------------------------------------
@@ -152,7 +175,24 @@ func genInheritance(t *rapid.T) (SetCase, map[string]bool) {
 		}
 		set = append(set, tm)
 	}
-	return SetCase{Ctx: ctx, Set: set, Main: "main"}, g.stats
+	sc := SetCase{Ctx: ctx, Set: set, Main: "main"}
+	// when main's parent name comes from a variable, a second context selects another layout
+	if len(set) >= 2 {
+		main := set[len(set)-1]
+		if main.Extends != nil && main.Extends.K == "var" {
+			alt := &Tmpl{Name: "altlayout", Body: []*S{Text("ALT[")}}
+			for b := 0; b < g.nblk; b++ {
+				alt.Body = append(alt.Body, &S{K: "block", Name: bname(b), Body: []*S{Text(fmt.Sprintf("alt%d", b))}}, Text(";"))
+			}
+			alt.Body = append(alt.Body, Text("]"))
+			sc.Set = append(sc.Set, alt)
+			c2 := Ctx{Names: append([]string{}, ctx.Names...), Vals: append([]*E{}, ctx.Vals...)}
+			c2.Set(main.Extends.S, Str("altlayout"))
+			sc.Ctx2 = &c2
+			g.stats["second-render-selects-another-layout"] = true
+		}
+	}
+	return sc, g.stats
 }
 
 const c10Rule = "extends chains of 1-5 templates over 1-4 blocks placed at top level, inside a loop, inside a conditional or inside another block of the base layout; every level independently omits, overrides with text/prints/conditionals, overrides with an empty body, or overrides and calls parent() (before, after, twice, inside an if); parent names static or dynamic (variable, concatenation, conditional); children carry text and comments outside blocks; non-trivial = chain length >= 3, or an empty override, or parent(), or a block inside a loop/conditional/other block; distinct by source set"
